@@ -261,3 +261,4 @@ Proof.
            apply rb_blacken2, rb_plug; [|cbn [bh isBlack]; replace (bh sl) with (S h) by lia; exact Hrest].
            cbn [rb]. rewrite R1, Hsl. replace (bh sl =? bh t0) with true by (symmetry; apply Nat.eqb_eq; cbn in R2; lia). reflexivity.
 Qed.
+
